@@ -23,14 +23,24 @@ static inline struct S_casc S_cascade(long long T, int hw, int hd, int hH, int h
 	r.rest = T;
 	return r;
 }
-#define PRE_precalc(f, dur) \
+#define PRE_precalc_utc(f, dur) \
 	((dur).durtyp == DT_DURS && (dur).tai == 0 && (dur).neg == 0 && DD_TOT(dur) > -(1LL << 40) && DD_TOT(dur) < (1LL << 40) && \
 	 !(f).has_year && !(f).has_mon && !(f).has_qtr && !(f).has_biz && !(f).has_nano)
 #define CASC(f, dur) S_cascade(DD_ABS(dur), (f).has_week, (f).has_day, (f).has_hour, (f).has_min, (f).has_sec)
-#define POST_precalc(ret, f, dur) \
+#define POST_precalc_utc(ret, f, dur) \
 	((ret).neg == (DD_TOT(dur) < 0) && (ret).Y == 0 && (ret).m == 0 && (ret).q == 0 && (ret).N == 0 && \
 	 (long long)(ret).w == CASC(f, dur).w && (long long)(ret).d == CASC(f, dur).d && (long long)(ret).H == CASC(f, dur).H && \
 	 (long long)(ret).M == CASC(f, dur).M && (long long)(ret).S == CASC(f, dur).S)
+/* C14: real-seconds durations (dt_dtdiff with the TAI target): .soft is the UTC difference, .corr the leap seconds between the operands.
+ * The slots, taken with the sign that ddiff_prnt prints in front, add up to the UTC difference whatever the sign of the duration
+ * (ddiff_prnt then adds the correction, with the same sign convention, when it prints %rS) */
+#define PRE_precalc_tai(f, dur) \
+	((dur).durtyp == DT_DURS && (dur).tai == 1 && (dur).neg == 0 && (dur).corr >= -64 && (dur).corr <= 64 && (f).has_sec && \
+	 !(f).has_year && !(f).has_mon && !(f).has_qtr && !(f).has_biz && !(f).has_nano)
+#define POST_precalc_tai(ret, f, dur) \
+	((ret).Y == 0 && (ret).m == 0 && (ret).q == 0 && (ret).N == 0 && ((ret).neg ? -DD_SUM(ret) : DD_SUM(ret)) == (long long)(dur).soft)
+#define PRE_precalc(f, dur) (PRE_precalc_utc(f, dur) || PRE_precalc_tai(f, dur))
+#define POST_precalc(ret, f, dur) ((dur).tai ? POST_precalc_tai(ret, f, dur) : POST_precalc_utc(ret, f, dur))
 static struct precalc_s precalc(durfmt_t f, struct dt_dtdur_s dur)
 VERIF_CONTRACT(__CPROVER_requires(PRE_precalc(f, dur)) __CPROVER_ensures(POST_precalc(RV, f, dur)) __CPROVER_assigns());
 
